@@ -95,7 +95,7 @@ def random_specs(rng, n):
             # rustc: explicit discriminants on an enum with non-unit variants need a primitive #[repr]
             for v in vs:
                 v.disc, v.disc_val = None, None
-        out.append(DSpec(EnumSpec("R%d" % k, vs, repr=R, role="random", note="random"), dderives=["strum::EnumIter"], checks={"iter"} | ({"layout"} if R else set())))
+        out.append(DSpec(decorate(rng, EnumSpec("R%d" % k, vs, repr=R, role="random", note="random")), dderives=["strum::EnumIter"], checks={"iter"} | ({"layout"} if R else set())))
     return out
 
 
